@@ -53,8 +53,9 @@ type thread struct {
 	grant  chan bool // true: go on, false: abort
 	kind   string    // where it is parked
 	done   bool
-	idx    int // index of the next call to invoke
-	yields int // consecutive yields (for fairness heuristics)
+	idx    int         // index of the next call to invoke
+	yields int         // consecutive yields (for fairness heuristics)
+	ready  func() bool // non-nil while parked before a lock operation: can it be acquired now?
 }
 
 // Run is one controlled execution of a multi-goroutine program.
@@ -143,11 +144,24 @@ type StepInfo struct {
 func (r *Run) Enabled() []int {
 	var out []int
 	for _, th := range r.threads {
-		if !th.done {
+		if !th.done && (th.ready == nil || th.ready()) {
 			out = append(out, th.id)
 		}
 	}
 	return out
+}
+
+// Deadlocked: somebody is not done but nobody can be granted.
+func (r *Run) Deadlocked() bool {
+	if len(r.Enabled()) > 0 {
+		return false
+	}
+	for _, th := range r.threads {
+		if !th.done {
+			return true
+		}
+	}
+	return false
 }
 
 func (r *Run) Kind(t int) string { return r.threads[t].kind }
@@ -164,6 +178,10 @@ func (r *Run) Step(t int) (StepInfo, error) {
 	if th.done {
 		return StepInfo{}, fmt.Errorf("thread %d is done", t)
 	}
+	if th.ready != nil && !th.ready() {
+		return StepInfo{}, fmt.Errorf("thread %d is blocked on a lock", t)
+	}
+	th.ready = nil
 	if r.Hung {
 		return StepInfo{}, fmt.Errorf("run is hung")
 	}
@@ -223,6 +241,18 @@ func Pre() bool {
 		return false
 	}
 	cur.park(curT, "pre")
+	return true
+}
+
+// PreBlocked is Pre for an operation that may have to wait (a lock): the goroutine parks with a
+// readiness predicate and is granted only when the predicate holds.
+func PreBlocked(ready func() bool) bool {
+	r := cur
+	if r == nil {
+		return false
+	}
+	r.threads[curT].ready = ready
+	r.park(curT, "pre")
 	return true
 }
 
